@@ -170,6 +170,60 @@ def setitem_fails(ctx, case):
     return None
 
 
+def overlap_case(rng, tier):
+    D, P = rng.randint(1, 3), rng.randint(1, 2)
+    n = rng.randint(2, 4)
+    kind = rng.choice(['shift', 'reverse', 'transpose', 'strided', 'view-of-view', 'self'])
+    shape = (n, n) if kind == 'transpose' else ((max(n, 4),) if kind in ('strided', 'view-of-view') else (n,))
+    return {'op': 'setitem-overlap', 'kind': kind, 'D': D, 'P': P, 'x': intdata(rng, (D, P) + shape)}
+
+
+def overlap_fails(ctx, case):
+    x = np.array(case['x'])
+    D, P = x.shape[:2]
+    u = UTPM(x.copy())
+    want = x.copy()
+    k = case['kind']
+
+    def npdo(a):
+        if k == 'shift':
+            a[1:] = a[:-1].copy()
+        elif k == 'reverse':
+            a[...] = a[::-1].copy()
+        elif k == 'transpose':
+            a[...] = a.T.copy()
+        elif k == 'strided':
+            a[::2] = a[1:1 + len(a[::2])].copy()
+        elif k == 'view-of-view':
+            v = a[1:]
+            v[1:] = a[1:len(v)].copy()
+        else:
+            a[...] = a.copy()
+    for d in range(D):
+        for p in range(P):
+            npdo(want[d, p])
+    try:
+        if k == 'shift':
+            u[1:] = u[:-1]
+        elif k == 'reverse':
+            u[...] = u[::-1]
+        elif k == 'transpose':
+            u[...] = u.T
+        elif k == 'strided':
+            m = len(x[0, 0][::2])
+            u[::2] = u[1:1 + m]
+        elif k == 'view-of-view':
+            v = u[1:]
+            v[1:] = u[1:x.shape[2] - 1]
+        else:
+            u[...] = u
+    except Exception as ex:
+        return 'setitem-overlap-exception-%s: raised %s' % (k, type(ex).__name__)
+    if not np.array_equal(u.data, want):
+        return 'setitem-overlap-%s: assigning an overlapping view of the same data differs from NumPy applied to every coefficient slice' % k
+    return None
+
+
 SHAPEOPS = ['reshape', 'transpose', 'T', 'sum', 'tile', 'diag', 'diag2', 'triu', 'tril', 'trace', 'neg', 'conj', 'real', 'imag',
             'fft', 'ifft', 'zeros_like', 'ones_like', 'zeros', 'ones', 'symvec', 'vecsym']
 
@@ -291,6 +345,8 @@ def replay_case(ctx, case):
         return getitem_fails(ctx, case)
     if case['op'] == 'setitem':
         return setitem_fails(ctx, case)
+    if case['op'] == 'setitem-overlap':
+        return overlap_fails(ctx, case)
     return shapeop_fails(ctx, case)
 
 
@@ -319,6 +375,8 @@ def run(ctx):
         do(getitem_case(rng, ctx.tier), getitem_fails)
     for i in range(n // 2):
         do(setitem_case(rng, ctx.tier), setitem_fails)
+    for i in range(n // 4):
+        do(overlap_case(rng, ctx.tier), overlap_fails)
     for i in range(n):
         do(shapeop_case(rng, ctx.tier), shapeop_fails)
     if ctx.tier == 'thorough':
